@@ -3,6 +3,9 @@ NOTES = ("Solver-based checking of the real code: z3 decides, per program skelet
          "property for all possible worlds, all parameter values and all leaf data within the stated "
          "bounds; structure (skeletons, shapes, histories, schedules) is enumerated. See DESIGN.md.")
 ENGINES = [
+    {"name": "E4 leaf", "path": "vlib/xh.py", "kind_free_text":
+        "CrossHair (symbolic execution of Python with z3) on generated harness modules: shape-concrete, data-symbolic; verdicts parsed per condition, counterexamples replayed concretely",
+     "serves_properties": ["C14"]},
     {"name": "E5 shadow", "path": "vlib/sym.py + vlib/leaf.py", "kind_free_text":
         "proxy values over z3 terms (reals, log values, ints, strings) driven through the real functions by a DFS path driver; builtins shadowed as module globals",
      "serves_properties": ["C12"]},
@@ -71,4 +74,8 @@ CHECKS["C12"] = dict(engine="E5 shadow (vlib/sym.py proxies + vlib/leaf.py law p
     technique="concolic execution of the real semiring methods on proxy values (builtin float and the math module shadowed as module globals of problog.evaluator); per feasible path z3 (NRA) decides the law for all values in [0,1]; SemiringSymbolic output parsed back and decided as a polynomial identity",
     text="~110 laws (commutative-semiring laws, identities, negate/normalize/ad_complement/to_evidence contracts for the probability and log-probability semirings; log-probability as the logarithmic image of probability operation by operation; documented base-class defaults on a user-defined semiring; value-component laws of the MPE semirings) are harnesses over the real methods; every path of every harness is decided by z3 for all inputs. ~3000 SemiringSymbolic expressions (depth <= 2 over a,b,c,0,1,0.5) are parsed and proved equal to the denoted rational function for all real a,b,c.",
     note="Floats are reals; exp/log/log1p exact inverse bijections (log values carried by their linear image); tolerance constants read as infinitesimals, so values inside a tolerance band are identified with its centre. IEEE rounding is outside the claim. A solver model that does not reproduce with concrete floats is reported inconclusive.")
+CHECKS["C14"] = dict(engine="E4 leaf (CrossHair, vlib/xh.py + vlib/unify_ref.py)", category="other",
+    technique="CrossHair symbolic execution (z3) of the real unify_value / =,\\= builtins / unify_call_head per term-shape pair with symbolic variable identities, postcondition = agreement with a reference Robinson unifier",
+    text="Per ordered pair of term shapes (depth <= 2 over variables, anonymous variable, atoms, quoted atom, string, int, float, f/1, g/2, list cells) and entry point, CrossHair explores every path of the real code over the symbolic variable identities and either confirms over all paths that success <=> an mgu exists, the bindings are a unifier, most general up to renaming, never cyclic, \\= is the complement of = - or returns a concrete identity assignment that is replayed.",
+    note="Shapes are enumerated (quick: fixed core of 64 pairs + seeded sample; thorough: all pairs with <= 4 variable leaves); identity domains are small (2-3 ids quick, up to 4 thorough). 'Not confirmed' counts as inconclusive. unify_call_return / answers of non-ground top-level queries are NOT covered (see DESIGN.md).")
 NOT_APPLICABLE = {"C30": "check file exists (props/c30.py) but its triage is unfinished: it reports violations on the unchanged tree that have not been classified, so the property is not claimed"}
